@@ -22,6 +22,8 @@ use std::time::Duration;
 const SEL: &str = client::Q_PREPARED_SELECT;
 const INS: &str = client::Q_PREPARED_INSERT;
 const UPD: &str = client::Q_PREPARED_UPDATE;
+/// Marker flag of paged executions: the SELECT yields 3 rows, read with page size 1.
+const F_PAGED: u64 = 4;
 
 #[derive(Debug, Clone, PartialEq)]
 enum Answer {
@@ -73,6 +75,8 @@ struct C14Script {
     /// Result columns of SEL per schema version.
     versions: BTreeMap<u32, Vec<crate::wire::ColSpec>>,
     workload_started: bool,
+    /// Paged executions whose statement was already evicted between two of its pages.
+    evicted_mid_paging: std::collections::BTreeSet<u64>,
 }
 
 fn params_of(req: &Request) -> Option<(&Vec<u8>, Option<&Vec<u8>>, &QueryParams)> {
@@ -83,8 +87,31 @@ fn params_of(req: &Request) -> Option<(&Vec<u8>, Option<&Vec<u8>>, &QueryParams)
 }
 
 impl Script for C14Script {
-    fn on_user_request(&mut self, _w: &mut World, _rq: &ReqInfo, _req: &Request) -> Reply {
+    fn on_user_request(&mut self, w: &mut World, rq: &ReqInfo, req: &Request) -> Reply {
+        // Eviction between two pages of a paged execution (once per execution, 1 in 3):
+        // the node forgets the statement right before it handles the request for a
+        // further page, so that request is answered UNPREPARED.
+        if let (Request::Execute { id, params, .. }, Some(m)) = (req, rq.marker) {
+            if m & F_PAGED != 0
+                && params.paging_state.is_some()
+                && !self.evicted_mid_paging.contains(&m)
+                && tape::chance("c14:evict_mid_paging", 1, 3)
+                && w.cluster.nodes[rq.node].prepared.remove(id).is_some()
+            {
+                self.evicted_mid_paging.insert(m);
+                w.fault(Fault::Evict);
+                w.probe("evicted_between_pages");
+                w.log(&format!("evict_mid_paging node={} marker={m}", rq.node));
+            }
+        }
         Reply::Default
+    }
+    fn rows_for(&mut self, _w: &mut World, rq: &ReqInfo, stmt: &StmtDef) -> Vec<Vec<crate::wire::Cell>> {
+        let rows = default_rows(stmt, rq.marker);
+        if rq.marker.map(|m| m & F_PAGED != 0).unwrap_or(false) {
+            return vec![rows[0].clone(), rows[0].clone(), rows[0].clone()];
+        }
+        rows
     }
     fn after_builtin(&mut self, w: &mut World, rq: &ReqInfo, req: &Request) {
         let node = rq.node;
@@ -431,9 +458,9 @@ async fn main(plan: Plan) -> Outcome {
             let mut obs = Vec::new();
             for k in 0..per {
                 world::sleep_ns(gaps[k]).await;
-                let m = ((c * 100 + k) as u64 + 1) * 16;
-                let t_invoke = world::now_ns();
                 let kind = kinds[k];
+                let m = ((c * 100 + k) as u64 + 1) * 16 + if kind == 3 { F_PAGED } else { 0 };
+                let t_invoke = world::now_ns();
                 let decode = |qr: scylla::response::query_result::QueryResult| -> Result<Vec<Vec<(String, Option<CqlValue>)>>, String> {
                     if !qr.is_rows() {
                         return Ok(vec![]);
@@ -492,8 +519,16 @@ async fn main(plan: Plan) -> Outcome {
                     (_, cs) => {
                         use futures::StreamExt;
                         let pager = match cs {
-                            Some(cs) => cs.execute_iter(idem(SEL), (k as i64, m as i64)).await,
-                            None => session.execute_iter((*sel).clone(), (k as i64, m as i64)).await,
+                            Some(cs) => {
+                                let mut st = idem(SEL);
+                                st.set_page_size(1);
+                                cs.execute_iter(st, (k as i64, m as i64)).await
+                            }
+                            None => {
+                                let mut p = (*sel).clone();
+                                p.set_page_size(1);
+                                session.execute_iter(p, (k as i64, m as i64)).await
+                            }
                         };
                         match pager {
                             Err(e) => Err(format!("{e}").chars().take(120).collect()),
@@ -737,6 +772,17 @@ async fn main(plan: Plan) -> Outcome {
             continue;
         };
         let Answer::Rows { version, with_metadata } = last.answer else { continue };
+        // A paged execution consumed several answers: judged only when all of them were
+        // encoded under one schema version with the same metadata choice.
+        if o.marker & F_PAGED != 0 {
+            let mixed = execs.iter().any(|e| {
+                e.marker == Some(o.marker) && matches!(e.answer, Answer::Rows { .. }) && e.answer != last.answer
+            });
+            if mixed {
+                undetectable += 1;
+                continue;
+            }
+        }
         let admissible = if with_metadata {
             true
         } else {
@@ -775,7 +821,10 @@ async fn main(plan: Plan) -> Outcome {
             schema_version: version,
             id_version: 0,
         };
-        let logical = default_rows(&stmt, Some(o.marker));
+        let mut logical = default_rows(&stmt, Some(o.marker));
+        if o.marker & F_PAGED != 0 {
+            logical = vec![logical[0].clone(), logical[0].clone(), logical[0].clone()];
+        }
         let expected: Vec<Vec<(String, Option<CqlValue>)>> = logical
             .iter()
             .map(|r| {
